@@ -23,8 +23,8 @@ LEVEL_TEXT = (
 )
 LEVEL_NOTE = (
     "Partial: name resolution (scopes, symbol kinds, type expectations of Program::analyze) is a parameter of the "
-    "theorems, not a model; chain-specific directives are lowered by the real code only (the lowering model skips "
-    "transactions that carry one and says so in the evidence); the agreement between lowering model and code is on "
+    "theorems, not a model; chain-specific directives are part of the lowering model since session 6 (LangAdhoc: withdrawal, donation, witnesses, publish, vote delegation; lowerTxFull_noPanic); "
+    " the agreement between lowering model and code is on "
     "the outcome class (ok / error), not on the error variant. The property holds of the code because analyze ends "
     "with a trial lowering (fix 0adc075): the theorems show that this chaining suffices, the correspondence shows "
     "that the code still chains that way."
@@ -33,7 +33,8 @@ PROP = "C13"
 TARGETS = ["Tx3Proofs.C13"]
 THEOREMS = ["Tx3.Lang.C13", "Tx3.Lang.C13_by_name", "Tx3.Lang.C13_reports", "Tx3.Lang.analyze_total",
             "Tx3.Lang.lowerTx_noPanic", "Tx3.Lang.C13_facade", "Tx3.Lang.C13_facade_ok",
-            "Tx3.Lang.analyze_eq_analyzeWith"]
+            "Tx3.Lang.analyze_eq_analyzeWith",
+    "Tx3.Lang.lowerDirective_noPanic", "Tx3.Lang.lowerTxFull_noPanic"]
 RULE = (
     "cases = 10 reproduced failures (missing field, Ada(), type name as value, odd hex, withdrawal without from, "
     "chain of 11 locals, min_utxo arity, index on a local, a broken second transaction, two transactions with one "
